@@ -640,6 +640,11 @@ func searchHull(c *vkit.Collector, g *gen, n int) {
 			if len(distinct) == 2 {
 				k = "ConvexHull.singleEdgeLoop"
 			}
+			for _, p := range input {
+				if distinct[s2.Point{Vector: p.Mul(-1)}] {
+					k = "ConvexHull.antipodal-input"
+				}
+			}
 			violate(c, k, "hull loop is invalid: "+err.Error(), rep())
 		}
 		// every input point is a vertex or contained
